@@ -519,6 +519,32 @@ def run_case(case, acc):
             viols.append((f"second_object_exception:{type(e).__name__}", repr(e)))
             r_dict = None
 
+    # a transient failure inside the first exe() call (the guess reads the command line) must not be remembered as an answer
+    if case["exe"]["form"].startswith("withheld") and not zombie:
+        with vk:
+            try:
+                pr3 = ps.Process(case["pid"])
+                armed = [True]
+
+                def once(kind, path, armed=armed):
+                    if armed[0] and kind == "open" and path.endswith("/cmdline"):
+                        armed[0] = False
+                        return OSError(24, "Too many open files", path)
+                    return None
+                vk.rules.append(once)
+                first = call(pr3.exe)
+                armed[0] = False
+                later = call(pr3.exe)
+                acc.count("exe_after_transient_failure_checked")
+                if first[0] == "exc" and not isinstance(first[1], OSError):
+                    viols.append((f"exe_exception:{type(first[1]).__name__}:transient_failure_in_guess", repr(first[1])))
+                if later != r_exe:
+                    viols.append(("exe_wrong_after_transient_failure_in_first_call",
+                                  f"first exe() hit EMFILE while reading the command line -> {first!r}; the next call -> {later!r}, "
+                                  f"an untroubled object answers {r_exe!r}"))
+            except Exception as e:  # noqa: BLE001
+                viols.append((f"second_object_exception:{type(e).__name__}", repr(e)))
+
     def same(a, b):
         if a[0] != b[0]:
             return False
